@@ -8,4 +8,4 @@ cd /repo || exit 2
 if [ -n "$(git status --porcelain)" ]; then echo "/repo is dirty, refusing"; exit 2; fi
 if ! git apply $REV "$PATCH"; then echo "patch does not apply"; exit 2; fi
 trap 'git -C /repo checkout -- . ; git -C /repo clean -fdq' EXIT
-cd /verif && ./bin/gbcheck -property "$PROPS" -verif /tmp/gbcheck_scratch 2>&1 | grep -E "VIOLATION|VIOLATED|UNDECIDED|KNOWN-FINDING|obligations" 
+cp /verif/known_findings.txt /tmp/gbcheck_scratch/; cd /verif && ./bin/gbcheck -property "$PROPS" -verif /tmp/gbcheck_scratch 2>&1 | grep -E "VIOLATION|VIOLATED|UNDECIDED|KNOWN-FINDING|obligations" 
